@@ -26,6 +26,12 @@
 (*            "num2" the second one (by subvals[i])                                            *)
 (*   The stirred-tank mapping (which substances, in which order, builder-made or caller-made)  *)
 (*   is part of the feed of Kinetics (feed.order, feed.usermap).                               *)
+(*   psym     "none" | "order" | "rev": create_odesys is handed user-made PARAMETER symbols in an  *)
+(*            OrderedDict listing the free parameters in sorted / reverse-sorted key order;     *)
+(*            param_names must then follow the caller's order                                   *)
+(*   symodict the concentration symbols come in an OrderedDict (must be in system order)        *)
+(*   rebuild  the system object is built twice; the second result is the one judged             *)
+(*   implicit arguments equal to their documented default are left out of the call              *)
 (*   symorder <<>> or a permutation of the substance list: create_odesys is handed             *)
 (*            user-made concentration symbols in a plain dict inserted in that order           *)
 (*   comp     substances carry compositions (then linear invariants are reported)             *)
@@ -71,6 +77,9 @@ IsConfig(cf, n) ==
     /\ Len(cf.subvals) >= n /\ \A i \in 1..n : IsQ(cf.subvals[i])
     /\ IsQ(cf.aval) /\ IsQ(cf.tval) /\ IsQ(cf.qval)
     /\ cf.gsub \in {"none", "num", "expr"} /\ cf.fsub \in {"none", "num"}
+    /\ cf.psym \in {"none", "order", "rev"} /\ cf.symodict \in BOOLEAN
+    /\ cf.rebuild \in BOOLEAN /\ cf.implicit \in BOOLEAN
+    /\ (cf.symodict => cf.symorder = subst)
     /\ SeqSet(cf.consts) \subseteq PKeys
     /\ IsQ(cf.gval) /\ IsQ(cf.gsubval) /\ IsQ(cf.gconst) /\ IsQ(cf.fsubval) /\ IsQ(cf.fconst)
     /\ (cf.symorder = <<>> \/ (IsOrder(cf.symorder) /\ SeqSet(cf.symorder) = Substs))
@@ -89,8 +98,8 @@ Accepted(cf, n) ==
             /\ cf.fsub # "none" => cf.cstr
             \* with include_params a purely named constant has no value to include
             /\ \A i \in 1..n : (cf.incl /\ cf.kinds[i] \in {"str", "ma_fk"}) => cf.subs[i] # "none"
-            \* get_odesys makes its own concentration symbols
-            /\ cf.symorder = <<>>
+            \* get_odesys makes its own concentration and parameter symbols
+            /\ cf.symorder = <<>> /\ cf.psym = "none"
        ELSE /\ ~cf.incl
             /\ \A i \in 1..n : cf.kinds[i] # "num"
             \* parameter_expressions: modelled for string-named constants only
@@ -200,8 +209,13 @@ BindEnv(cf) ==
             ELSE IF v \in DOMAIN KeyEnv(cf) THEN KeyEnv(cf)[v]
             ELSE IF v \in DOMAIN FeedEnv(feed) THEN FeedEnv(feed)[v]
             ELSE rsys[CHOOSE i \in DOMAIN rsys : KName(i) = v].kv]
-ExpectedF(cf) == RatesFed(EffSys(cf), c, EffFeed(cf))
-ExpectedRVals(cf) == [i \in 1..Len(rsys) |-> RateOf(EffSys(cf)[i], c)]
+ExpectedFAt(cf, cc) == RatesFed(EffSys(cf), cc, EffFeed(cf))
+ExpectedF(cf) == ExpectedFAt(cf, c)
+ExpectedRValsAt(cf, cc) == [i \in 1..Len(rsys) |-> RateOf(EffSys(cf)[i], cc)]
+ExpectedRVals(cf) == ExpectedRValsAt(cf, c)
+\* a second state for calling the generated callbacks again: the concentrations in reverse order
+C2 == [s \in Species |-> IF s \in Substs
+                          THEN c[subst[Len(subst) + 1 - (CHOOSE j \in DOMAIN subst : subst[j] = s)]] ELSE c[s]]
 
 (* composition balance matrix: rows = sorted keys of the listed substances, columns = substances *)
 CompKeys == UNION { Support(Comp[subst[j]]) : j \in DOMAIN subst }
@@ -298,13 +312,16 @@ CfgOut(cf) == [builder |-> cf.builder, incl |-> cf.incl, kinds |-> cf.kinds, sub
                subvals |-> SubSeq(cf.subvals, 1, Len(rsys)), aval |-> cf.aval, tval |-> cf.tval,
                gsub |-> cf.gsub, fsub |-> cf.fsub, consts |-> cf.consts, symorder |-> cf.symorder,
                gval |-> cf.gval, gsubval |-> cf.gsubval, gconst |-> cf.gconst,
-               fsubval |-> cf.fsubval, fconst |-> cf.fconst, qval |-> cf.qval]
+               fsubval |-> cf.fsubval, fconst |-> cf.fconst, qval |-> cf.qval,
+               psym |-> cf.psym, symodict |-> cf.symodict, rebuild |-> cf.rebuild, implicit |-> cf.implicit]
 OClass == cfg.builder \o (IF cfg.incl THEN "-incl" ELSE "-free")
           \o (IF cfg.cstr THEN "-cstr" ELSE "") \o (IF cfg.comp THEN "-comp" ELSE "")
           \o (IF cfg.consts # <<>> THEN "-consts" ELSE "") \o (IF feed.usermap THEN "-map" ELSE "")
           \o (IF hist # <<>> THEN "-h" ELSE "") \o (IF cfg.symorder # <<>> THEN "-sym" ELSE "")
           \o (IF HasUntouched THEN "-u" ELSE "") \o (IF ConstRHS(cfg) THEN "-const" ELSE "") \o "-n" \o ToString(Len(rsys))
 OCaseIn == [ subst |-> subst,
+             names |-> BySubst(NameMap),
+             c2 |-> BySubst(C2),
              rxns |-> [i \in 1..Len(rsys) |-> RxnOut(rsys[i])],
              c |-> BySubst(c),
              sphase |-> BySubst(sphase),
@@ -319,6 +336,10 @@ OCaseExp == [ names |-> ExpectedNames,
               poly |-> BySubst([s \in Species |-> PolyOut(ExpectedPoly(cfg, s))]),
               f |-> BySubst(ExpectedF(cfg)),
               rvals |-> ExpectedRVals(cfg),
+              f2 |-> BySubst(ExpectedFAt(cfg, C2)),
+              rvals2 |-> ExpectedRValsAt(cfg, C2),
+              frame |-> TRUE,   \* Build leaves the system as it was (UNCHANGED rsys)
+              paramseq |-> cfg.psym # "none",   \* param_names follow the caller's parameter symbols
               rpoly |-> [i \in 1..Len(rsys) |-> PolyOut(ExpectedRatePoly(cfg, i))],
               B |-> IF cfg.comp THEN ExpectedB ELSE <<>>,
               mayrefuse |-> MayRefuse(cfg) ]
